@@ -688,6 +688,19 @@ class Program:
         try:
             from props import strops
 
+            # a reviewed type that gained a lifetime parameter (`LoopElement(SvgElement)` -> `LoopElement<'a>(&'a
+            # SvgElement)`) is spelled `LoopElement<'_>` in impl paths: the reviewed spelling is restored
+            known_fns = strops.load_table()[1]
+            text0 = _json.dumps(units)
+            gained = set()
+            for m_ in set(_re.findall(r"((?:[a-z_0-9]+::)+[A-Z][A-Za-z0-9_]*)<'[a-z_]+>", text0)):
+                if not any((m_ + "<'") in f_ for f_ in known_fns) and any(m_ in f_ for f_ in known_fns):
+                    gained.add(m_)
+            if gained:
+                for m_ in sorted(gained, key=len, reverse=True):
+                    text0 = _re.sub(_re.escape(m_) + r"<'[a-z_]+>", m_, text0)
+                units = _json.loads(text0)
+                self._init(units)
             tren = strops.adt_renames(self)
         except Exception:  # noqa: BLE001 - normalisation is best effort; without it anchors fail closed
             tren = {}
@@ -723,9 +736,9 @@ class Program:
         text = _json.dumps(units)
         for new, old in sorted(ren.items(), key=lambda kv: -len(kv[0])):
             nl, ol = new.rsplit("::", 1)[-1], old.rsplit("::", 1)[-1]
-            if nl == ol:
-                # moved under the same name: the whole path changes
-                text = text.replace(_json.dumps(new)[1:-1], _json.dumps(old)[1:-1])
+            if nl == ol or new.rsplit("::", 1)[0] != old.rsplit("::", 1)[0]:
+                # moved under the same name, or a method that became a free function (or the reverse): the whole path changes
+                text = _re.sub(_re.escape(_json.dumps(new)[1:-1]) + r"(?![A-Za-z0-9_])", _json.dumps(old)[1:-1].replace("\\", "\\\\"), text)
                 continue
             text = _re.sub(r"::" + _re.escape(nl) + r"(?![A-Za-z0-9_])", "::" + ol, text)
             text = text.replace(f'"name": "{nl}"', f'"name": "{ol}"')
